@@ -1,12 +1,21 @@
 """C17 — placement puts each partition's replicas on distinct, spread-out nodes."""
 import json
 import os
+import re
 import shutil
 
 import vlib
 from vlib import sh, log
 
-V2 = "x" + b"v2".hex()
+def v2_string():
+    """the balance-version string that selects the incremental algorithm, from the generated Consts.v"""
+    try:
+        src = open(os.path.join(vlib.COQ, "Place", "Consts.v")).read()
+        m = re.search(r"balance_v2_str : list N := \[([0-9; ]*)\]", src)
+        return "x" + bytes(int(x) for x in m.group(1).split(";") if x.strip()).hex()
+    except Exception:
+        return "x" + b"v2".hex()
+
 
 
 # ---------- case decoding (format documented in harness/cmd/place/main.go) ----------
@@ -61,6 +70,7 @@ def oracle(cases, impl):
     """The property itself evaluated on the implementation's outputs (no model involved)."""
     fails = []
     hist = {}
+    V2 = v2_string()
 
     def bump(k):
         hist[k] = hist.get(k, 0) + 1
